@@ -67,6 +67,32 @@ Proof.
   - symmetry. rewrite sumn_swap. apply sumn_ext. intros j _. now rewrite sumn_mul_r.
 Qed.
 
+(* ---- convolutions (generic gather layer): any stride / padding / dilation / groups / number of spatial dimensions *)
+Theorem conv_gs_is_grad (P O C Kk : nat) (chan src : nat -> nat -> nat) (W dW : nat -> nat -> nat -> K) (b db : nat -> K) (xp : nat -> nat -> K) (g : nat -> nat -> K) :
+  sumn O (fun o => sumn C (fun c => sumn Kk (fun k => conv_gs_w K k0 kadd kmul P chan src g xp o c k * dW o c k))) + sumn O (fun o => conv_gs_b K k0 kadd P g o * db o)
+  = pair2 K k0 kadd kmul P O g (fun p o => conv_fwd K k0 kadd kmul C Kk chan src (fun o c k => W o c k + dW o c k) (fun o => b o + db o) xp p o
+                                          - conv_fwd K k0 kadd kmul C Kk chan src W b xp p o).
+Proof.
+  unfold pair2, conv_fwd, conv_gs_w, conv_gs_b.
+  rewrite (sumn_ext P _ (fun p => sumn O (fun o => sumn C (fun c => sumn Kk (fun k => g p o * xp (chan o c) (src p k) * dW o c k)) + g p o * db o))).
+  2:{ intros p _. apply sumn_ext. intros o _.
+      assert (E : sumn C (fun c => sumn Kk (fun k => (W o c k + dW o c k) * xp (chan o c) (src p k))) + (b o + db o)
+                  - (sumn C (fun c => sumn Kk (fun k => W o c k * xp (chan o c) (src p k))) + b o)
+                  = sumn C (fun c => sumn Kk (fun k => dW o c k * xp (chan o c) (src p k))) + db o).
+      { rewrite (sumn_ext C (fun c => sumn Kk (fun k => (W o c k + dW o c k) * xp (chan o c) (src p k)))
+                          (fun c => sumn Kk (fun k => W o c k * xp (chan o c) (src p k)) + sumn Kk (fun k => dW o c k * xp (chan o c) (src p k)))).
+        2:{ intros c _. rewrite <- sumn_add. apply sumn_ext. intros; ring. }
+        rewrite sumn_add. ring. }
+      rewrite E. transitivity (g p o * sumn C (fun c => sumn Kk (fun k => dW o c k * xp (chan o c) (src p k))) + g p o * db o); [ring|]. f_equal.
+      rewrite <- sumn_mul_l. apply sumn_ext. intros c _. rewrite <- sumn_mul_l. apply sumn_ext. intros; ring. }
+  rewrite (sumn_ext P _ (fun p => sumn O (fun o => sumn C (fun c => sumn Kk (fun k => g p o * xp (chan o c) (src p k) * dW o c k))) + sumn O (fun o => g p o * db o)))
+    by (intros; apply sumn_add).
+  rewrite sumn_add. f_equal.
+  - symmetry. rewrite sumn_swap. apply sumn_ext. intros o _. rewrite sumn_swap. apply sumn_ext. intros c _. rewrite sumn_swap. apply sumn_ext. intros k _.
+    now rewrite sumn_mul_r.
+  - symmetry. rewrite sumn_swap. apply sumn_ext. intros o _. now rewrite sumn_mul_r.
+Qed.
+
 (* ---- Embedding, with or without padding_idx: the padding row is a constant, its gradient is zero *)
 Definition padz (pad : option nat) (v : nat) (y : K) : K := match pad with Some p => if Nat.eqb v p then k0 else y | None => y end.
 Lemma emb_gs_alt pad T g idx v d :
